@@ -7,7 +7,6 @@ mod types;
 
 use gen::*;
 use ops::*;
-use std::hash::BuildHasher;
 use std::io::{BufRead, BufWriter, Write};
 use types::*;
 
@@ -56,7 +55,7 @@ fn parse_args() -> Args {
     a
 }
 
-fn run_stream<H: BuildHasher + Default + Clone>(a: &Args, sink: &mut Sink) -> serde_json::Value {
+fn run_stream<H: HX>(a: &Args, sink: &mut Sink) -> serde_json::Value {
     let thorough = a.tier == "thorough";
     let mut rng = Rng::new(a.seed ^ gen_tag(&a.stream));
     let pq = [Kind::Pq];
@@ -98,7 +97,7 @@ fn run_stream<H: BuildHasher + Default + Clone>(a: &Args, sink: &mut Sink) -> se
         "c11" => random_stream::<H>(sink, &mut rng, &both, &weights_with(&[("push_increase", 300), ("push_decrease", 300)]), n, l),
         "c12" => random_stream::<H>(sink, &mut rng, &both, &weights_with(&[("get_mut", 100), ("peek_mut", 100), ("iter_mut", 60), ("get", 80), ("push_increase", 100), ("push_decrease", 100), ("change_priority_by", 100)]), n, l),
         "c14" => random_stream::<H>(sink, &mut rng, &both, &weights_with(&[("eq", 200), ("clone", 150)]), n, l),
-        "c15" => random_stream::<H>(sink, &mut rng, &both, &weights_with(&[("serde_rt", 150), ("deser", 150)]), n, l),
+        "c15" => random_stream::<H>(sink, &mut rng, &both, &weights_with(&[("serde_rt", 150), ("deser", 150), ("deser_unit", 25), ("deser_bad", 150), ("ser_fail", 60)]), n, l),
         "c16" => random_stream::<H>(sink, &mut rng, &both, &weights_with(&[("drain", 150), ("clear", 80)]), n, l),
         "c17" => random_stream::<H>(sink, &mut rng, &both, &weights_with(&[("capacity", 400)]), n, l),
         x => { eprintln!("unknown stream {}", x); std::process::exit(2) }
@@ -113,7 +112,7 @@ fn gen_tag(s: &str) -> u64 {
 }
 
 /// replay op lines (a `case <id> <kind>` line starts a fresh queue; anything after ` => ` is ignored)
-fn replay<H: BuildHasher + Default + Clone>(a: &Args, sink: &mut Sink) {
+fn replay<H: HX>(a: &Args, sink: &mut Sink) {
     let f = std::fs::File::open(&a.input).expect("cannot open input");
     let mut q: AnyQ<H> = AnyQ::new(Kind::Pq);
     let mut dead = false;
@@ -149,7 +148,7 @@ fn replay<H: BuildHasher + Default + Clone>(a: &Args, sink: &mut Sink) {
 
 /// C10 probe: replay the operations of a case (including injected faults), then run continuation battery `k` on
 /// whatever state resulted, then drop everything.  Runs in its own process: an out-of-bounds unchecked access aborts it.
-fn probe<H: BuildHasher + Default + Clone>(a: &Args) {
+fn probe<H: HX>(a: &Args) {
     use std::panic::{catch_unwind, AssertUnwindSafe};
     TRACK.with(|t| t.set(true));
     let live0 = LIVE.with(|l| l.get());
